@@ -81,6 +81,7 @@ package keeper
 //@ ensures [checkpoint_indexes_are_contiguous] err == nil ==> has(bridge.LatestCheckpointIdx) && bridge.LatestCheckpointIdx.Index == (old(has(bridge.LatestCheckpointIdx)) ? old(bridge.LatestCheckpointIdx.Index) + 1 : 0)
 //@ ensures [index_and_timestamp_refer_to_each_other] err == nil ==> has(bridge.ValidatorCheckpointIdxMap, bridge.LatestCheckpointIdx.Index) && bridge.ValidatorCheckpointIdxMap[bridge.LatestCheckpointIdx.Index].Timestamp == validatorTimestamp && has(bridge.ValsetTimestampToIdxMap, validatorTimestamp) && bridge.ValsetTimestampToIdxMap[validatorTimestamp].Index == bridge.LatestCheckpointIdx.Index
 //@ ensures [hash_threshold_and_timestamp_recorded_with_the_checkpoint] err == nil ==> has(bridge.ValidatorCheckpointParamsMap, validatorTimestamp) && bridge.ValidatorCheckpointParamsMap[validatorTimestamp].Timestamp == validatorTimestamp && bridge.ValidatorCheckpointParamsMap[validatorTimestamp].PowerThreshold == powerThreshold && bytes(bridge.ValidatorCheckpointParamsMap[validatorTimestamp].ValsetHash) == bytes(validatorSetHash) && bytes(bridge.ValidatorCheckpointParamsMap[validatorTimestamp].Checkpoint) == bytes(checkpoint)
+//@ ensures [checkpoint_is_keccak_of_domain_separator_threshold_timestamp_and_set_hash] err == nil ==> bytes(checkpoint) == keccak(abienc("bytes32,uint256,uint256,bytes32", pad(strbytes("checkpoint"), 32), powerThreshold, validatorTimestamp, pad(bytes(validatorSetHash), 32)))
 //@ ensures [earlier_checkpoints_keep_their_index] forall i int :: i != bridge.LatestCheckpointIdx.Index ==> (has(bridge.ValidatorCheckpointIdxMap, i) <==> old(has(bridge.ValidatorCheckpointIdxMap, i))) && bridge.ValidatorCheckpointIdxMap[i] == old(bridge.ValidatorCheckpointIdxMap[i])
 //@ ensures [failure_changes_nothing] err != nil ==> nothing_written()
 
@@ -180,3 +181,23 @@ package keeper
 //@ modifies bridge.OperatorToEVMAddressMap
 //@ ensures [registers_exactly_this_operator] err == nil && has(bridge.OperatorToEVMAddressMap, operatorAddr) && bytes(bridge.OperatorToEVMAddressMap[operatorAddr].EVMAddress) == bytes(evmAddr)
 //@ ensures [other_operators_untouched] forall o string :: o != operatorAddr ==> (has(bridge.OperatorToEVMAddressMap, o) <==> old(has(bridge.OperatorToEVMAddressMap, o))) && bridge.OperatorToEVMAddressMap[o] == old(bridge.OperatorToEVMAddressMap[o])
+
+// ---- byte encodings shared with the EVM contracts (C15) ----
+// abienc("t1,t2,...", v1, v2, ...) is the Solidity abi.encode of the values with those types (uninterpreted: equal
+// types and values give equal bytes); keccak(b) is keccak-256; pad(b, 32) is b copied into a bytes32 (right-padded
+// or truncated); hexdec(s) the bytes of hex string s; strbytes(s) the bytes of s; ethaddr(b) is
+// common.BytesToAddress(b).
+
+//@ func (k Keeper).GetDepositQueryId(depositId) (queryId, err)
+//@ ensures [query_id_is_keccak_of_TRBBridge_true_and_the_deposit_id] err == nil ==> bytes(queryId) == keccak(abienc("string,bytes", "TRBBridge", abienc("bool,uint256", true, depositId)))
+
+//@ func (k Keeper).GetWithdrawalQueryId(withdrawalId) (queryId, err)
+//@ ensures [query_id_is_keccak_of_TRBBridge_false_and_the_withdrawal_id] err == nil ==> bytes(queryId) == keccak(abienc("string,bytes", "TRBBridge", abienc("bool,uint256", false, withdrawalId)))
+
+//@ func (k Keeper).GetWithdrawalReportValue(amount, sender, recipient) (value, err)
+//@ requires [amount_fits_uint64] 0 <= amount.Amount && amount.Amount < 18446744073709551616
+//@ ensures [report_value_encodes_recipient_sender_amount_and_zero_tip] err == nil ==> bytes(value) == abienc("address,string,uint256,uint256", ethaddr(bytes(recipient)), accstr(sender), amount.Amount, 0)
+
+//@ func (k Keeper).EncodeOracleAttestationData(queryId, value, timestamp, aggregatePower, previousTimestamp, nextTimestamp, valsetCheckpoint, attestationTimestamp) (digest, err)
+//@ ensures [digest_is_keccak_of_the_domain_separated_report_fields_in_contract_order] err == nil ==> bytes(digest) == keccak(abienc("bytes32,bytes32,bytes,uint256,uint256,uint256,uint256,bytes32,uint256", pad(hexdec("74656c6c6f7243757272656e744174746573746174696f6e0000000000000000"), 32), pad(bytes(queryId), 32), hexdec(value), timestamp, aggregatePower, previousTimestamp, nextTimestamp, pad(bytes(valsetCheckpoint), 32), attestationTimestamp))
+//@ ensures [malformed_value_is_rejected] !ishexbytes(value) ==> err != nil
